@@ -885,7 +885,9 @@ def c12(run):
     cases = units.product_unit(run, fd, srcs, [{"flavour": "r", "reject": True, "yymore": True, "instances": True, "stack": False},
                                                {"flavour": "r", "reject": True, "yymore": True, "instances": True, "stack": False, "tablesfile": True},
                                                {"flavour": "r", "reject": True, "yymore": True, "instances": True, "stack": False, "heap": True},
-                                               {"flavour": "r", "reject": True, "yymore": False, "instances": True, "stack": False}],
+                                               {"flavour": "r", "reject": True, "yymore": False, "instances": True, "stack": False},
+                                               {"flavour": "c99", "reject": True, "yymore": True, "instances": True, "stack": False},
+                                               {"flavour": "c99", "reject": True, "yymore": False, "instances": True, "stack": False, "heap": True}],
                                tag="product", san=True)
     ok = [c for c in cases if c.status == "ok"]
     wd = os.path.join(run.work, "inst"); os.makedirs(wd, exist_ok=True)
@@ -948,7 +950,7 @@ def c12(run):
     _prefix_unit(run, fd, srcs[:3])
     run.sample(dict(kind="schedule", interleaving=schedules[len(schedules) // 2], instances=3, calls_each=2))
     run.assumptions += ["'no state is raced on' is observed by ThreadSanitizer attached to the threaded runs (DESIGN.md section 9), not decided by TLC",
-                        "C++ lexer objects and c99 scanners: isolation exercised by the prefix/link unit only"]
+                        "C++ lexer objects: isolation exercised by the prefix/link unit only (c99 scanners run in the instance harness like reentrant C ones)"]
 
 
 def _prefix_unit(run, fd, srcs):
